@@ -188,11 +188,40 @@ def run(ctx):
                           expected=repr(fresh[probe])[:300], observed=repr(got)[:300])
     # ------------------------------------------------------------------ (c)
     batch = POOL_VALID + POOL_INVALID + PROBES
+    # programs with many names, several of them defective and never used by code (whatever walks the symbol table, the
+    # exports or the files must do so in an order the hash seed does not choose)
+    defects = ["%s = %s / zero%d", "%s = %s + 1 + %s", "%s = nowhere%d + %s", "%s = 1 << (0 - %s) + %d", "%s = %s %% zero%d"]
+    for k in range(60 if ctx.thorough else 24):
+        names = ["%s%d" % (rng.choice(["sym", "val", "q", "Count", "x.", "zz$"]), rng.randrange(1000)) for _ in range(rng.randint(4, 14))]
+        names = list(dict.fromkeys(names))
+        lines = ["zero%d = 0" % k]
+        for nm in names:
+            c = rng.random()
+            if c < 0.3:
+                t = rng.choice(defects)
+                if t.count("%s") == 3:
+                    lines.append(t % (nm, nm, nm))
+                elif "%s /" in t or "%s %%" in t:
+                    lines.append(t % (nm, rng.choice(names), k))
+                elif "nowhere" in t:
+                    lines.append(t % (nm, k, rng.choice(names)))
+                else:
+                    lines.append(t % (nm, rng.choice(names), k))
+            elif c < 0.5:
+                lines.append("%s == %d" % (nm, rng.randrange(100)))
+            elif c < 0.7:
+                lines.append("%s: .word %s" % (nm, rng.choice(names)))
+            else:
+                lines.append("%s = %d" % (nm, rng.randrange(100)))
+        if rng.random() < 0.5:
+            lines.append(".extern " + ", ".join(rng.sample(names, min(len(names), 3))))
+        rng.shuffle(lines)
+        batch.append("\n".join(lines) + "\n")
     script = ("import sys, json, hashlib\nsys.path.insert(0, %r)\nfrom harness import impl\nsrcs = json.loads(sys.stdin.read())\nout = []\n"
               "for s in srcs:\n    r = impl.asm1(s)\n    out.append([r.outcome, r.base, r.code.hex() if r.code is not None else None, sorted((d[0], d[1], d[2][0][1], d[2][0][2]) for d in r.diags)])\n"
               "print(hashlib.sha256(json.dumps(out).encode()).hexdigest())\n" % os.path.dirname(os.path.dirname(os.path.abspath(__file__))))
     digests = {}
-    for seed in range(32 if ctx.thorough else 4):
+    for seed in range(32 if ctx.thorough else 6):
         env = dict(os.environ, PYTHONHASHSEED=str(seed), PDPY11_VERIF="1", PYTHONDONTWRITEBYTECODE="1", VERIF_REPO=REPO)
         p = subprocess.run([PY, "-c", script], input=json.dumps(batch).encode(), stdout=subprocess.PIPE, stderr=subprocess.PIPE, env=env, timeout=300)
         digests[seed] = p.stdout.decode().strip() or ("ERR " + p.stderr.decode()[-200:])
